@@ -12,6 +12,7 @@ import (
 	"strconv"
 	"strings"
 	"sync"
+	"sync/atomic"
 	"time"
 
 	"github.com/KevoDB/kevo/pkg/engine"
@@ -129,6 +130,11 @@ func scanTx(conc Conc, tx interfaces.Transaction) map[string]string {
 		res[k] = "NONE"
 	}
 	it := tx.NewIterator()
+	// every other scan goes through the RANGE iterator (bounds around all keys): the transaction builds it on a path of its own
+	if scanTxCount.Add(1)%2 == 0 {
+		lo, hi := conc.Key(txKeys[0]), append(conc.Key(txKeys[len(txKeys)-1]), 0xff)
+		it = tx.NewRangeIterator(lo, hi)
+	}
 	for it.SeekToFirst(); it.Valid(); it.Next() {
 		if it.IsTombstone() {
 			continue
@@ -137,6 +143,8 @@ func scanTx(conc Conc, tx interfaces.Transaction) map[string]string {
 	}
 	return res
 }
+
+var scanTxCount atomic.Int64
 
 func isClosedErr(err error) bool {
 	return err != nil && (errors.Is(err, transaction.ErrTransactionClosed) || strings.Contains(err.Error(), "closed"))
